@@ -22,6 +22,10 @@ def run_one(sid, replay):
         wit = any(l.startswith("WITNESS") for l in lines)
         return {"id": sid, "property": pid, "outcome": outcome, "witness": wit, "rc": r.returncode, "lines": [l[:300] for l in lines[:8]], "summary": meta.get("summary", "")[:200]}
     finally:
+        import hashlib
+        h = hashlib.md5((tmp + "\n").encode()).hexdigest()[:10]
+        shutil.rmtree(os.path.join(VERIF, "build", "replay", h), ignore_errors=True)
+        shutil.rmtree(os.path.join(VERIF, "build", "kani_" + hashlib.md5(os.path.join(tmp, "src").encode()).hexdigest()[:10]), ignore_errors=True)
         shutil.rmtree(tmp, ignore_errors=True)
 if __name__ == "__main__":
     replay = "--replay" in sys.argv
